@@ -346,7 +346,8 @@ pub fn execute_from(trie: &mut Trie, src: &mut dyn Source, st: &mut Stats) {
                 && (call.pkt.ver == "v311" || call.pkt.ver == "v50") && !spawn_fresh;
             if call.op == "crash" {
                 let m = &main;
-                match catch(|| m.restored_copy()) {
+                let hf = call.flag;
+                match catch(|| m.restored_copy(hf)) {
                     Ok(s) => shadow = Some(("restored", s)),
                     Err(_) => shadow = None,
                 }
